@@ -5,6 +5,7 @@ import (
 	"math"
 	"strconv"
 	"strings"
+	"sync"
 	"time"
 
 	"github.com/tormoder/fit"
@@ -28,7 +29,7 @@ func registerC17() {
 		Level: "exploration",
 		Rule: "all 2^32 semicircle values for Latitude and Longitude (constructors, Invalid, Semicircles, Degrees, NewXDegrees round trip) and all 2^32 second counts " +
 			"(decode/encode bijection, UTC, whole seconds, monotone, IsBaseTime), in 4096 chunks of 2^20 values; the printed form is checked on a stride of 4099 plus all " +
-			"boundary values in the quick tier and on every value in the thorough tier; every value is a distinct case, non-trivial because each exercises the oracle",
+			"boundary values in the quick tier and on every value in the thorough tier; family concurrent-print: 8 goroutines print and parse 40000 coordinates each at the same time; every value is a distinct case, non-trivial because each exercises the oracle",
 		Assume: []string{
 			"'outside +-90 degrees' is read as the library's documented semicircle range [-2^30, 2^30-1]; +2^30 (exactly +90) is invalid in the code and in its own test table",
 			"the time conversion pair is reached through the verif hook (VerifDecodeDateTime / VerifEncodeTime)",
@@ -37,6 +38,7 @@ func registerC17() {
 		Families: []lib.Family{
 			{Name: "coords", N: func(string) uint64 { return 4096 }, Run: c17Coords},
 			{Name: "time", N: func(string) uint64 { return 4096 }, Run: c17Time},
+			{Name: "concurrent-print", N: func(t string) uint64 { return tierN(t, 32, 512) }, Run: c17ConcurrentPrint},
 		},
 		Exhaustive: func(string) bool { return true },
 		Finish: func(c *lib.Ctx, cov map[string]interface{}) {
@@ -210,6 +212,52 @@ func c17Coords(c *lib.Ctx, idx uint64) {
 }
 
 var fitEpoch = time.Date(1989, time.December, 31, 0, 0, 0, 0, time.UTC)
+
+// c17ConcurrentPrint: the printed form must be within 2e-5 degrees whoever else is printing at
+// the same time: 8 goroutines print and parse 40 000 coordinates each (values and methods are
+// value types: nothing is shared by the callers).
+func c17ConcurrentPrint(c *lib.Ctx, idx uint64) {
+	const G, per = 8, 40000
+	var wg sync.WaitGroup
+	bad := make([]string, G)
+	for g := 0; g < G; g++ {
+		wg.Add(1)
+		go func(g int) {
+			defer wg.Done()
+			rng := lib.NewRand("C17.concurrent-print", idx*64+uint64(g))
+			for i := 0; i < per && bad[g] == ""; i++ {
+				s := int32(rng.U64())
+				la, lo := fit.NewLatitude(s), fit.NewLongitude(s)
+				for k, str := range []string{la.String(), lo.String()} {
+					inv, deg := la.Invalid(), la.Degrees()
+					if k == 1 {
+						inv, deg = lo.Invalid(), lo.Degrees()
+					}
+					if inv {
+						if str != "Invalid" {
+							bad[g] = fmt.Sprintf("semicircles %d: String() = %q, want \"Invalid\"", s, str)
+						}
+						continue
+					}
+					v, err := strconv.ParseFloat(str, 64)
+					if err != nil || math.Abs(v-deg) > 2e-5 {
+						bad[g] = fmt.Sprintf("semicircles %d: String() = %q while %d goroutines print coordinates, Degrees() = %v: not within 2e-5", s, str, G, deg)
+					}
+				}
+			}
+		}(g)
+	}
+	wg.Wait()
+	c.EvalN(2 * G * per)
+	for _, b := range bad {
+		if b != "" {
+			c.Violation([]byte(b), "%s", b)
+			return
+		}
+	}
+	c.NontrivialN(2 * G * per)
+	c.Count("coordinates_printed_concurrently", 2*G*per)
+}
 
 func c17Time(c *lib.Ctx, idx uint64) {
 	base := uint32(idx) << 20
